@@ -45,7 +45,7 @@ package manifest
 //@   trusted
 //@   modifies nothing
 
-//@ property C10 := (*manager).validateRequest#*
+//@ property C10 := (*manager).validateRequest#*, (*manager).run#*
 
 // ---- C20: every submission is answered exactly once; announcements only with lease, chain data and a validated manifest
 // reply-channel protocol (A-FRESHCH): RepSt[c] is 0 for a channel never received as a submission, 1 while the
@@ -56,6 +56,10 @@ package manifest
 //@ ghost RepSt: map[ref]int
 //@ ghost QPos: map[ref]int
 //@ ghost Outst: int
+// C10: ChainVer is the version carried by the latest deployment-update event the loop received (VerSeen == 1 once there
+// was one); the version a manifest is checked against - the last entry of m.versions - is that one
+//@ ghost ChainVer: str
+//@ ghost VerSeen: int
 
 //@ spec qOK(m: *manager, RepSt: map[ref]int, QPos: map[ref]int, Outst: int): bool =
 //@     (forall i: int {m.requests[i].ch} :: 0 <= i && i < len(m.requests) ==> m.requests[i].ch != nil && RepSt[m.requests[i].ch] == 1 && m.requests[i].value != nil && root(m.requests[i].value) != root(m) && QPos[m.requests[i].ch] == i + 1)
@@ -198,8 +202,12 @@ package manifest
 //@   requires m.leasech != nil && m.rmleasech != nil && m.manifestch != nil && m.updatech != nil
 //@   requires ChanKind[m.leasech] == 0 && ChanKind[m.rmleasech] == 0 && ChanKind[m.manifestch] == 0 && ChanKind[m.updatech] == 0
 //@   modifies m.requests, m.requests[**], m.pendingRequests, m.pendingRequests[**], m.manifests, m.manifests[**], m.leases, m.leases[**], m.versions, m.versions[**], m.data, m.data.Deployment.Version, m.stoptimer
-//@   modifies ghost RepSt, ghost QPos, ghost Outst, ghost ChanKind, ghost ChanPending, ghost InFlight
+//@   modifies ghost RepSt, ghost QPos, ghost Outst, ghost ChanKind, ghost ChanPending, ghost InFlight, ghost ChainVer, ghost VerSeen
+//@   requires VerSeen == 0
 //@   onsend * assert RepSt[sendch] == 1
+//@   select 1 case 5 ghost ChainVer := recv
+//@   select 1 case 5 ghost VerSeen := 1
+//@   loop 1 invariant [latestversion] VerSeen == 1 ==> len(m.versions) > 0 && m.versions[len(m.versions) - 1] == ChainVer
 //@   select 1 case 4 assume recv.ch != nil && RepSt[recv.ch] == 0 && recv.value != nil && root(recv.value) != root(m)
 //@   select 1 case 4 ghost RepSt := RepSt[recv.ch := 1]
 //@   select 1 case 4 ghost QPos := QPos[recv.ch := len(m.requests) + 1]
